@@ -465,11 +465,16 @@ func c11BrokenReader(c *C) {
 	routes := []struct{ name, main, target string }{
 		{"static include", `<{% include "/part.tpl" %}>`, "/part.tpl"}, {"include if_exists", `<{% include "/part.tpl" if_exists %}>`, "/part.tpl"}, {"computed-name include", `<{% include pn %}>`, "/part.tpl"},
 		{"computed-name include if_exists", `<{% include pn if_exists %}>`, "/part.tpl"}, {"ssi", `<{% ssi "/part.tpl" %}>`, "/part.tpl"}, {"ssi parsed", `<{% ssi "/part.tpl" parsed %}>`, "/part.tpl"},
-		{"import", `{% import "/lib.tpl" m %}<{{ m() }}>`, "/lib.tpl"}, {"extends", `{% extends "/base.tpl" %}{% block b %}x{% endblock %}`, "/base.tpl"}, {"FromFile", ``, "/part.tpl"},
+		{"import", `{% import "/lib.tpl" m %}<{{ m() }}>`, "/lib.tpl"},
+		{"ssi inside an existing template that is included with if_exists (holder)", `<{% include "/holder.tpl" if_exists %}>`, "/part.tpl"},
+		{"ssi inside an existing template that is included by a computed name with if_exists (holder)", `<{% include hn if_exists %}>`, "/part.tpl"},
+		{"include inside an existing template that is included with if_exists (holder2)", `<{% include "/holder2.tpl" if_exists %}>`, "/part.tpl"}, {"extends", `{% extends "/base.tpl" %}{% block b %}x{% endblock %}`, "/base.tpl"}, {"FromFile", ``, "/part.tpl"},
 	}
 	rt := routes[r.Intn(len(routes))]
 	first.failing[rt.target] = true
 	first.files["/main.tpl"] = rt.main
+	first.files["/holder.tpl"] = `holder[{% ssi "/part.tpl" %}]`
+	first.files["/holder2.tpl"] = `holder2[{% include "/part.tpl" %}]`
 	entry := "/main.tpl"
 	if rt.name == "FromFile" {
 		entry = "/part.tpl"
@@ -478,7 +483,7 @@ func c11BrokenReader(c *C) {
 	var out string
 	tpl, err := set.FromFile(entry)
 	if err == nil {
-		out, err = tpl.Execute(pongo2.Context{"pn": "/part.tpl"})
+		out, err = tpl.Execute(pongo2.Context{"pn": "/part.tpl", "hn": "/holder.tpl"})
 	}
 	c.Eval(1)
 	d := D{"route": rt.name, "main": rt.main, "loader0": "has " + rt.target + " but its reader fails half way", "loader1": "holds a SHADOWED-COPY of " + rt.target, "output": q(out), "error": errStr(err), "loader1_get_calls": second.gets}
@@ -486,7 +491,7 @@ func c11BrokenReader(c *C) {
 		c.Fail("later-loader-won", d)
 		return
 	}
-	if err == nil && !(strings.Contains(rt.name, "if_exists") && out == "<>") {
+	if err == nil && !(strings.Contains(rt.name, "if_exists") && !strings.Contains(rt.name, "holder") && out == "<>") {
 		// (with if_exists a file that cannot be read may count as absent: the property does not say; it renders nothing then)
 		c.Fail("read-error-lost", d)
 		return
@@ -582,6 +587,15 @@ func c11Run(c *C) {
 	}
 	if c11Root == "" {
 		c11Init()
+	}
+	if r.Chance(12) {
+		// another page was being streamed (ExecuteWriterUnbuffered) when its writer broke inside an include's output
+		pset, _ := newSet(map[string]string{"/pg.tpl": `head {% include "/card.tpl" %} tail`, "/card.tpl": "CARD-NUMBER-OF-ANOTHER-PAGE 4111 1111 1111 1111 and a longer text so that something is left over"})
+		if pt, perr := pset.FromFile("/pg.tpl"); perr == nil {
+			pt.ExecuteWriterUnbuffered(nil, &recWriter{failAt: 2, err: errors.New("c11: connection lost"), short: 5})
+			pt.ExecuteWriterUnbuffered(nil, &recWriter{failAt: 2, err: errors.New("c11: connection lost")})
+		}
+		c.Cover("after_a_failed_streaming_of_another_page")
 	}
 	w, entry := c11Gen(r)
 	var tls []pongo2.TemplateLoader
